@@ -76,6 +76,12 @@ def cases(draw, tier="quick"):
     c["relay_coalesce"] = draw(st.booleans())      # the relay's reply is not a TCP segment of its own
     c["late_select"] = draw(st.booleans())
     c["recs"] = [draw(st.lists(records(), max_size=6)), draw(st.lists(records(), max_size=6))]
+    if draw(st.integers(0, 14)) == 0:
+        # a burst of small records (acks, pings, closes) that TCP may hand over in a single read
+        d_ = draw(st.integers(0, 1))
+        nb = draw(st.sampled_from([64, 99, 100, 101, 128, 255, 256, 257, 300]))
+        c["recs"][d_] = [draw(st.sampled_from([["ack", k], ["ping", bytes([k % 256]) * 4], ["close", k, k]])) for k in range(nb)]
+        c["burst"] = True
     c["hostile"] = draw(st.sampled_from([None, None, None, "prologue", "relayreply", "psk", "otherkey", "flip",
                                          "flip", "truncate", "zerolen", "biglen"]))
     c["victim"] = draw(st.integers(0, 1))
@@ -531,6 +537,9 @@ def run_case(c):
                 continue
             break
         ch = choices[tape.below(len(choices))]
+        if c.get("burst") and any(x.startswith("send") for x in choices):
+            # the application writes the whole burst before the reactor gets to the socket again
+            ch = [x for x in choices if x.startswith("send")][0]
         if ch.startswith("send"):
             i = int(ch[4])
             r = mkrec(pending[i].pop(0))
@@ -549,6 +558,8 @@ def run_case(c):
         if dst is V:
             hostile_stream_op()
         n = CHUNKS[tape.below(len(CHUNKS))] if not tape.exhausted() else None
+        if c.get("burst") and n is not None and n < 1000:
+            n = None
         before = len(src["t"].out)
         # a frame is "split" if this chunk ends inside it
         if n is not None and n < before:
@@ -623,7 +634,7 @@ def run_case(c):
             break
     big = any(r[0] == "data" and r[3] > 65510 or (r[0] == "open" and len(r[3]) > 60000) for rs in c["recs"] for r in rs)
     res.nontrivial = bool(big or split_frames[0] >= 1 or hostile)
-    res.features = dict(hostile=hostile or "-", relay=c["relay"] or "-", late=c["late_select"], big=bool(big),
+    res.features = dict(hostile=hostile or "-", relay=c["relay"] or "-", late=c["late_select"], big=bool(big), burst=bool(c.get("burst")),
                         split=common.bucket(split_frames[0], [0, 1, 5]), nrec=common.bucket(len(sent[0]) + len(sent[1]), [0, 1, 4]))
     res.trace = ",".join("%s%d" % (r[0], r[3] if r[0] == "data" else 0) for rs in c["recs"] for r in rs) + "|%d" % nsteps[0]
     res.steps = nsteps[0]
